@@ -30,7 +30,9 @@ def c16(ctx, replay):
     ctx.rule = ("(i) schedules = every maximal behaviour of InnovPar for 2 threads (scenarios split-split, link-link, split-link; thorough: "
                 "also two mutations per thread and sampled 3-thread schedules), each forced on real goroutines calling the real "
                 "mutateAddNode / mutateAddLink on a shared real Population through a gate at every primitive; outcomes validated by "
-                "Trace_InnovPar; (ii) every access to the innovation record in sequential and parallel epochs probed for the mutex "
+                "Trace_InnovPar; (i') every interleaving of the primitive calls the real mutators themselves make (2 threads exhaustively, 3 threads "
+                "up to a cap; also with a pre-filled registry) found by a stateless search over which parked goroutine runs next, same "
+                "validation; (ii) every access to the innovation record in sequential and parallel epochs probed for the mutex "
                 "(Trace_LockSet); (iii) free-running parallel epochs under the Go race detector at GOMAXPROCS 1/4/16; (iv) parallel "
                 "epochs of the C02 scenario matrix validated by Trace_Epoch (C01/C02/C03 clauses); non-trivial = schedules in which "
                 "both threads looked the registry up before either stored (both miss)")
@@ -92,6 +94,31 @@ def c16(ctx, replay):
                 if all(not o["reused"] for t in c["out"] for o in t):
                     both_miss += 1
         ctx.nontrivial += both_miss
+    # ---------------------------------------------------------------- (i') exploration of the code's own interleavings
+    # A stateless search over which parked goroutine to release next visits EVERY interleaving of the primitive calls the real
+    # mutators make (however many they make), also with a pre-filled registry; outcomes are judged by Trace_InnovPar.
+    if replay is None or any(v.get("replay", {}).get("kind") == "explored" for v in replay.get("violations", [])):
+        exo = ctx.path("explored.out.ndjson")
+        rep_file = ctx.path("explored.report.json")
+        _, rep, _ = ctx.vh(["explore-schedules", "-out", exo, "-report", rep_file, "-max", "3000" if thorough else "400"], pkg="vh_genome",
+                           expect_report=rep_file, timeout=3000)
+        ctx.add_report(rep, "explored", traces=0)
+        r = ctx.tlc("Trace_InnovPar", env={"TRACE": exo}, workers=1, timeout=1800)
+        if not r.ok:
+            raise Infra("Trace_InnovPar did not complete on explored schedules: %s\n%s" % (r.violated, r.output[-2000:]))
+        ctx.traces += r.distinct - 1
+        ctx.extra["explored_schedules"] = rep.get("extra", {}).get("schedules_per_scenario")
+        lines = None
+        for f in read_fails(r.cases_file):
+            mine = [x for x in f["fails"] if x.startswith("C16:")]
+            if mine:
+                if lines is None:
+                    with open(exo) as fh:
+                        lines = fh.readlines()
+                case = json.loads(lines[f["l"] - 1]) if f["l"] - 1 < len(lines) else {}
+                ctx.violation("explored schedule %s of %s: %s (genes %s)" % (json.dumps(case.get("sched")), case.get("scenario"), "; ".join(mine),
+                                                                              json.dumps([[m["genes"] for m in t] for t in case.get("real", [])])),
+                              "C16 explored " + mine[0], {"kind": "explored", "failure": {"scenario": case.get("scenario"), "order": case.get("prefix"), "clauses": mine}})
     if replay is not None and not any(v.get("replay", {}).get("kind") in ("lockset", "race", "epochs") for v in replay.get("violations", [])):
         return
     # ---------------------------------------------------------------- (ii) lock-set on real accesses
@@ -170,7 +197,7 @@ def epoch_traces_all(ctx, replay):
 
 
 CHECKS = {
- "C16": dict(text="InnovPar.tla specifies the shared innovation-registry protocol (lookup snapshot, atomic counters, store under the mutex) with one action per primitive call; TLC checks one-meaning-per-number, fresh numbers, one split per node id and the lock-set invariant over ALL interleavings of 2 threads (and sampled 3-thread behaviours), and every one of these schedules is forced on real goroutines running the real mutators against a shared real Population (gate at every primitive), the real outcomes being validated by Trace_InnovPar. The lock-set invariant is also evaluated on real access events of sequential and parallel epochs (mutex probe at the hook sites), the Go race detector watches free-running parallel epochs at several GOMAXPROCS, and the parallel epochs of the C02 scenario matrix are validated by Trace_Epoch for the C01/C02/C03 clauses.",
+ "C16": dict(text="InnovPar.tla specifies the shared innovation-registry protocol (lookup snapshot, atomic counters, store under the mutex) with one action per primitive call; TLC checks one-meaning-per-number, fresh numbers, one split per node id and the lock-set invariant over ALL interleavings of 2 threads (and sampled 3-thread behaviours), and every one of these schedules is forced on real goroutines running the real mutators against a shared real Population (gate at every primitive), the real outcomes being validated by Trace_InnovPar; in addition the harness explores every interleaving of the primitive calls the code itself makes (independent of the model's step structure, also with a pre-filled registry) and TLC validates those outcomes with the same trace specification. The lock-set invariant is also evaluated on real access events of sequential and parallel epochs (mutex probe at the hook sites), the Go race detector watches free-running parallel epochs at several GOMAXPROCS, and the parallel epochs of the C02 scenario matrix are validated by Trace_Epoch for the C01/C02/C03 clauses.",
              note="Exhaustive: all interleavings of 2 threads x 1 mutation (3 scenarios; thorough also 2 mutations each), each replayed on real goroutines; 3 threads sampled (150 / 3000 schedules). Data-race freedom of the Go program itself is decided on observed free-running executions by the race detector plus the lock-set probe, not for every schedule (the gates of a forced schedule synchronise, so forced schedules cannot show races). Trusted: TLC, the Go race detector, the gate wrapper.",
              technique=TECH, ref="DESIGN.md 7/C16"),
 }
